@@ -7,6 +7,7 @@ import (
 	"net/http"
 
 	"github.com/irai/packet"
+	"golang.org/x/net/dns/dnsmessage"
 )
 
 // Contracts for the byte-level helpers of the naming handler (C08): total on arbitrary bytes.
@@ -56,3 +57,126 @@ func verif_inv_dns_naming_processSSDPNotify_1(options []string, i int) bool {
 	return 0 <= i && i <= len(options)
 }
 func verif_dec_dns_naming_processSSDPNotify_1(options []string, i int) int { return len(options) - i }
+
+// processSSDPSearchRequest (M-SEARCH): returns for every byte string.
+//
+//verif:props C08
+func verif_contract_dns_naming_processSSDPSearchRequest(raw []byte) (packet.NameEntry, string, error) {
+	vCanary()
+	vModifiesHeap()
+	n, loc, err := processSSDPSearchRequest(raw)
+	return n, loc, err
+}
+
+// parseTXT (mDNS TXT record strings): returns for every list of strings.
+//
+//verif:props C08
+func verif_contract_dns_naming_parseTXT(txt []string) string {
+	vCanary()
+	vModifiesHeap()
+	return parseTXT(txt)
+}
+
+func verif_inv_dns_naming_parseTXT_1(txt []string, rangeindex int) bool {
+	return -1 <= rangeindex && rangeindex < len(txt)
+}
+
+// http.ReadResponse (standard library, TRUSTED): total; a nil error comes with a non-nil response
+// whose Body is non-nil (net/http documents both).
+func verif_extern_http_ReadResponse(b *bufio.Reader, req *http.Request) (*http.Response, error) {
+	resp, err := http.ReadResponse(b, req)
+	vEnsures(err != nil || (resp != nil && resp.Body != nil))
+	return resp, err
+}
+
+// processSSDPResponse (M-SEARCH response): returns for every byte string.
+//
+//verif:props C08
+func verif_contract_dns_naming_processSSDPResponse(raw []byte) (packet.NameEntry, string, error) {
+	vCanary()
+	vModifiesHeap()
+	n, loc, err := processSSDPResponse(raw)
+	return n, loc, err
+}
+
+// ProcessSSDP: the dispatch over the three SSDP message kinds returns for every payload, given
+// the Ethernet view of a frame Parse accepted (the debug log lines read its addresses).
+//
+//verif:props C08
+func verif_contract_dns_naming_DNSHandler_ProcessSSDP(h *DNSHandler, host *packet.Host, ether packet.Ether, payload []byte, f packet.Frame) (packet.NameEntry, string, error) {
+	vRequires(packet.VerifSpecFrameUDP(f)) // ether is the Ethernet view of a frame Parse accepted
+	ether = f.Ether()
+	vCanary()
+	vModifiesHeap()
+	n, loc, err := h.ProcessSSDP(host, ether, payload)
+	return n, loc, err
+}
+
+// ---------- dnsmessage.Parser typestate (TRUSTED contracts on golang.org/x/net) ----------
+
+// verifAnswersLeft (ghost): how many answer records the parser in use has not consumed yet
+// (dnsmessage.Parser keeps it as header.answers - index while in the answer section). It is only
+// ever read and written by the trusted contracts below and by termination measures.
+var verifAnswersLeft int
+
+func verifGhostAnswersLeft(n int) { verifAnswersLeft = n } // (marks the ghost as mutable state for govc)
+
+// Start: total; the header announces at most 65535 answers.
+func verif_extern_dnsmessage_Parser_Start(p *dnsmessage.Parser, msg []byte) (dnsmessage.Header, error) {
+	vModifiesObj(p)
+	vModifiesMems("global:github.com/irai/packet/handlers/dns_naming.verifAnswersLeft")
+	h, err := p.Start(msg)
+	vEnsures(0 <= verifAnswersLeft && verifAnswersLeft <= 65535)
+	return h, err
+}
+
+// SkipAllQuestions: total; consumes no answer.
+func verif_extern_dnsmessage_Parser_SkipAllQuestions(p *dnsmessage.Parser) error {
+	vModifiesObj(p)
+	err := p.SkipAllQuestions()
+	return err
+}
+
+// AnswerHeader: total; does NOT consume the record (calling it again returns the same header);
+// succeeds only while an answer is left, reports ErrSectionDone or a parse error otherwise.
+func verif_extern_dnsmessage_Parser_AnswerHeader(p *dnsmessage.Parser) (dnsmessage.ResourceHeader, error) {
+	vModifiesObj(p)
+	h, err := p.AnswerHeader()
+	vEnsures(err != nil || verifAnswersLeft > 0)
+	return h, err
+}
+
+// UnknownResource / SkipAnswer: total; a nil error means one answer record was consumed.
+func verif_extern_dnsmessage_Parser_UnknownResource(p *dnsmessage.Parser) (dnsmessage.UnknownResource, error) {
+	left := verifAnswersLeft
+	vModifiesObj(p)
+	vModifiesMems("global:github.com/irai/packet/handlers/dns_naming.verifAnswersLeft")
+	r, err := p.UnknownResource()
+	vEnsures((err == nil && verifAnswersLeft == left-1) || (err != nil && verifAnswersLeft == left))
+	return r, err
+}
+func verif_extern_dnsmessage_Parser_SkipAnswer(p *dnsmessage.Parser) error {
+	left := verifAnswersLeft
+	vModifiesObj(p)
+	vModifiesMems("global:github.com/irai/packet/handlers/dns_naming.verifAnswersLeft")
+	err := p.SkipAnswer()
+	vEnsures((err == nil && verifAnswersLeft == left-1) || (err != nil && verifAnswersLeft == left))
+	return err
+}
+
+// ProcessNBNS: returns for every payload (no panic; the answer loop consumes a record per
+// iteration, so it ends after at most as many iterations as the header announces answers).
+//
+//verif:props C08
+func verif_contract_dns_naming_DNSHandler_ProcessNBNS(h *DNSHandler, host *packet.Host, ether packet.Ether, payload []byte) (packet.NameEntry, error) {
+	vCanary()
+	vModifiesHeap()
+	vModifiesMems("global:github.com/irai/packet/handlers/dns_naming.verifAnswersLeft")
+	n, err := h.ProcessNBNS(host, ether, payload)
+	return n, err
+}
+
+func verif_inv_dns_naming_DNSHandler_ProcessNBNS_1() bool {
+	return 0 <= verifAnswersLeft && verifAnswersLeft <= 65535
+}
+func verif_dec_dns_naming_DNSHandler_ProcessNBNS_1() int { return verifAnswersLeft }
